@@ -23,6 +23,10 @@ double __CPROVER_uninterpreted_log(double);
 #ifdef H_CACHES
 double sqrt(double x) { double r = __CPROVER_uninterpreted_sqrt(x); ASSUME(r == r); return r; }
 double log(double x) { double r = __CPROVER_uninterpreted_log(x); ASSUME(r == r); return r; }
+double __CPROVER_uninterpreted_log1p(double);
+double log1p(double x) { double r = __CPROVER_uninterpreted_log1p(x); ASSUME(r == r); return r; }
+double pow(double x, double y) { (void)x; (void)y; return nondet_double(); }   /* value irrelevant here */
+double ldexp(double x, int e) { (void)x; (void)e; return nondet_double(); }   /* value irrelevant here (the boost draw) */
 double ceil(double x) { double r = nondet_double(); ASSUME(r >= 1.0 && r <= 1e9); return r; }   /* value irrelevant here */
 #endif
 
@@ -133,22 +137,24 @@ void h_caches(void)
 {
     /* geometric: run once to obtain the addresses, then set an arbitrary cache that satisfies
      * the invariant (prev == 0.0: it is never written) and check what the next call uses */
-    const double p0 = nondet_double(); ASSUME(p0 > 0.0 && p0 <= 1.0);
+    const double p0 = nondet_double(); ASSUME(p0 > 0.0 && p0 < 1.0);      /* p == 1 returns before the cache is touched */
     (void)cmb_random_geometric(p0);
     OBT("C15-O3", *cmv_geo_prev == 0.0, "geometric: the 'previous p' cell is never written, so denom is recomputed on every call");
-    const double p = nondet_double(); ASSUME(p > 0.0 && p <= 1.0);
+    const double p = nondet_double(); ASSUME(p > 0.0 && p < 1.0);
     *cmv_geo_denom = nondet_double();
     (void)cmb_random_geometric(p);
-    OBT("C15-O3", *cmv_geo_prev == 0.0 && *cmv_geo_denom == -__CPROVER_uninterpreted_log(1.0 - p), "geometric: the denominator used is -log(1-p) of the CURRENT argument");
+    OBT("C15-O3", *cmv_geo_prev == 0.0 && *cmv_geo_denom == -__CPROVER_uninterpreted_log1p(-p), "geometric: the denominator used is -log1p(-p) of the CURRENT argument");
     CANARY("random caches geometric: end reachable");
 }
 /* the first draw of the sampler comes right after the cache handling: the obligations are checked
  * there, and the rest of the sampler (rejection loops, floating-point algebra) is cut off */
 double cmv_gamma_probe(void)
 {
-    OBT("C15-O3", *cmv_g_aprev == cmv_s1, "std_gamma: the cache key is the shape of the call being made");
-    OBT("C15-O3", cmv_s1 == cmv_k0 || (*cmv_g_d == cmv_s1 - 1.0 / 3.0 && *cmv_g_c == 1.0 / __CPROVER_uninterpreted_sqrt(9.0 * (cmv_s1 - 1.0 / 3.0))), "std_gamma: on a key miss (c,d) are recomputed from the current shape alone");
-    OBT("C15-O3", cmv_s1 != cmv_k0 || (*cmv_g_d == cmv_d0 && *cmv_g_c == cmv_c0), "std_gamma: on a key hit the cached (c,d) are used unchanged");
+    /* the cache key is the effective shape: the shape itself, or shape + 1 in the boosted case shape < 1 */
+    const double key = (cmv_s1 < 1.0) ? cmv_s1 + 1.0 : cmv_s1;
+    OBT("C15-O3", *cmv_g_aprev == key, "std_gamma: the cache key is the (effective) shape of the call being made");
+    OBT("C15-O3", key == cmv_k0 || (*cmv_g_d == key - 1.0 / 3.0 && *cmv_g_c == 1.0 / __CPROVER_uninterpreted_sqrt(9.0 * (key - 1.0 / 3.0))), "std_gamma: on a key miss (c,d) are recomputed from the current shape alone");
+    OBT("C15-O3", key != cmv_k0 || (*cmv_g_d == cmv_d0 && *cmv_g_c == cmv_c0), "std_gamma: on a key hit the cached (c,d) are used unchanged");
     CANARY("random caches gamma: probe reachable");
     ASSUME(0);
     return 0.0;
